@@ -12,7 +12,11 @@
    sizes around Lua's static limits, control transfers (break / continue / ret / <!>) x where they are written, transfer x
    function flavour (fn, pu, method, immediately invoked, argument, nested, pure in pure) x enclosing construct, and dead
    code (a transfer that is not last in its block x every kind of following statement x block position x kind of
-   function body; quick: the star of that product, thorough: all of it).  MC_LoadCases checks the universe (ids and texts unique, every cell inhabited, the spelling really occurs
+   function body; quick: the star of that product, thorough: all of it); round 3: control transfers inside if / case
+   EXPRESSIONS in value position (transfer x expression form x value site x loop context x function), string-literal
+   CONTENT (control / separator character x following character x preceding character x site; these chunks are also
+   run and TLC compares what they print with the bytes of the literal) and WIDE constructs (26 comma-separated
+   constructs x widths 1..80).  MC_LoadCases checks the universe (ids and texts unique, every cell inhabited, the spelling really occurs
    in the text, sizes straddle the limits) and emits every case.
 3. The recorder (harness c06) substitutes the placeholders, compiles each project through the public API, hands every
    emitted chunk to minilua's loader and writes one event list per case.  TLC (Trace_Load) re-derives every case from
@@ -333,8 +337,9 @@ def run(ctx):
     # every case with a byte expectation that loaded was run, and most of them exist and load
     need = [(c, r) for c, r in zip(cases, recs) if c["expect"] != "-"]
     ran = [(c, r) for c, r in need if any(e["e"] == "run" for e in r["ev"])]
-    if len(need) < 1000 or len(ran) * 10 < len(need) * 8 or any(outcome(r) == "ok" and (c, r) not in ran for c, r in need[:50]):
-        vlib.tool_error("vacuity: %d cases carry a byte expectation, only %d of them were run" % (len(need), len(ran)))
+    notrun = [c["idx"] for c, r in need if outcome(r) == "ok" and not any(e["e"] == "run" for e in r["ev"])]
+    if len(need) < 1000 or notrun:
+        vlib.tool_error("vacuity: %d cases carry a byte expectation; loaded but not run: %s" % (len(need), notrun[:5]))
     if v.coverage.get("TraceRun", (0, 0))[1] + run_.byte_rejects < len(ran):
         vlib.tool_error("vacuity: %d chunks were run but TLC compared only %d outputs" % (len(ran), v.coverage.get("TraceRun", (0, 0))[1]))
 
@@ -395,7 +400,10 @@ def run(ctx):
            spec_assumptions_checked=SPEC_ASSUMES, negative_controls_rejected=nneg,
            exhaustive=(tier != "quick"), known_findings_hit=verdicts.known_hits,
            rule="every case of SyltCorners!Cases (spelling x site, string content x site, numeric literal x site, unused expression "
-                "form x position, shape x size, control transfer x placement, transfer x function flavour x construct, dead code after a transfer; thorough: + the full dead-code product and pairs of forms in an unused tuple), every file under /repo/tests, and the programs of the C01 "
+                "form x position, shape x size, control transfer x placement, transfer x function flavour x construct, dead code after a transfer, "
+                "transfer inside an if / case expression x value site x loop context, control character x follower x position x site of a string literal (run, "
+                "output compared with the literal's bytes by TLC), construct x width; thorough: + the full products of the dead-code, value-transfer and "
+                "string-content families and pairs of forms in an unused tuple), every file under /repo/tests, and the programs of the C01 "
                 "universe (all in thorough, a seeded sample of 2000 in quick); one evaluation = compile through the public API + "
                 "minilua load of the emitted chunk + TLC validation of the event list; a program is non-trivial when the compiler "
                 "accepted it, i.e. its chunk really went to the loader; distinct by source text (lexical cases, TLC: TextsUnique), "
@@ -404,7 +412,8 @@ def run(ctx):
                      "main": recs[i]["files"][0]["text"][:300]} for i in six])
     ev.assume("no Lua interpreter exists in the sandbox: 'the Lua interpreter loads the chunk' means minilua's loader (vharness::luarun::load_only) "
               "accepts it - full Lua 5.3 lexer and grammar plus the static limits of lparser.c (200 local variables and 255 upvalues per function, "
-              "200 nested C levels, break/goto resolution); chunks are loaded, never run",
+              "200 nested C levels, break/goto resolution); chunks are loaded and - except those of the string-content family, which minilua also "
+              "runs so that the printed bytes can be compared - never run",
               "the loader's refusals are classified by the wording fixed by Lua 5.3 (too many local variables / upvalues / C levels, unfinished "
               "string, invalid escape, malformed number, break outside a loop, no visible label); everything else is 'syntax'",
               "minilua does not enforce Lua's 255-registers-per-function limit nor the constant / instruction count limits (minilua README, "
